@@ -51,6 +51,7 @@ FCosh(a) == CHOOSE x : TRUE
 FPow(a, b) == CHOOSE x : TRUE
 FPowI(a, n) == CHOOSE x : TRUE
 
+FSeq(s) == s                         \* identity; the override evaluates the sequence eagerly and deeply
 FSum(s) == CHOOSE x : TRUE           \* left-to-right sum of a sequence
 FNorm2(s) == CHOOSE x : TRUE         \* sqrt(sum of squares)
 FMaxAbs(s) == CHOOSE x : TRUE        \* max |s[i]|, 0 for <<>>
@@ -80,10 +81,10 @@ FNear(a, b, tol) == FLe(FAbs(FSub(a, b)), tol)
 FClose(a, b, rel) == FLe(FAbs(FSub(a, b)), FMul(rel, FMax(F1, FMax(FAbs(a), FAbs(b)))))
 
 \* vectors: sequences of F64
-VAdd(u, v) == [k \in 1..Len(u) |-> FAdd(u[k], v[k])]
-VSub(u, v) == [k \in 1..Len(u) |-> FSub(u[k], v[k])]
-VScale(c, u) == [k \in 1..Len(u) |-> FMul(c, u[k])]
-VAxpy(c, u, v) == [k \in 1..Len(u) |-> FAdd(FMul(c, u[k]), v[k])]   \* c*u + v
+VAdd(u, v) == FSeq([k \in 1..Len(u) |-> FAdd(u[k], v[k])])
+VSub(u, v) == FSeq([k \in 1..Len(u) |-> FSub(u[k], v[k])])
+VScale(c, u) == FSeq([k \in 1..Len(u) |-> FMul(c, u[k])])
+VAxpy(c, u, v) == FSeq([k \in 1..Len(u) |-> FAdd(FMul(c, u[k]), v[k])])   \* c*u + v
 VFinite(u) == \A k \in 1..Len(u) : FIsFinite(u[k])
 VDist(u, v) == FNorm2(VSub(u, v))
 VDistInf(u, v) == FMaxAbs(VSub(u, v))
